@@ -179,6 +179,51 @@ class Tr:
             if self.ty[e.value.id] == "S":
                 return "T", "(s_nth %s %s)" % (self.env[e.value.id], k)
             return "Q", "(b_at %s %s)" % (self.env[e.value.id], k)
+        if isinstance(e, ast.List) and len(e.elts) == 2 and isinstance(e.elts[0], ast.Constant) and e.elts[0].value == 0 \
+                and isinstance(e.elts[1], ast.Subscript) and isinstance(e.elts[1].value, ast.Attribute) \
+                and e.elts[1].value.attr == "shape" and isinstance(e.elts[1].value.value, ast.Name):
+            # [0, t.shape[d]]: the default bounds of mode d of tensor t
+            ty, x = self.texpr(e.elts[1].value.value)
+            if ty != "T":
+                raise Unsupported("shape of a non-tensor")
+            return "Q", "(b_default %s %s)" % (x, self.nexpr(e.elts[1].slice))
+        if isinstance(e, ast.ListComp) and len(e.generators) == 1 and not e.generators[0].ifs \
+                and isinstance(e.generators[0].target, ast.Name) and isinstance(e.generators[0].iter, ast.Name) \
+                and self.ty.get(e.generators[0].iter.id) == "D":
+            # [f(d) for d in dim]  over a list of modes
+            v = e.generators[0].target.id
+            if v in self.env:
+                raise Unsupported("comprehension variable shadows " + v)
+            self.env[v] = v; self.ty[v] = "N"
+            try:
+                ty, body = self.texpr(e.elt)
+            finally:
+                del self.env[v]; del self.ty[v]
+            if ty not in ("T", "Q"):
+                raise Unsupported("comprehension of kind " + ty)
+            return ("L" if ty == "T" else "LB"), "(map (fun %s : nat => %s) %s)" % (v, body, self.env[e.generators[0].iter.id])
+        if isinstance(e, ast.ListComp) and len(e.generators) == 1 and not e.generators[0].ifs \
+                and isinstance(e.generators[0].target, ast.Tuple) and len(e.generators[0].target.elts) == 2 \
+                and all(isinstance(x, ast.Name) for x in e.generators[0].target.elts) \
+                and isinstance(e.generators[0].iter, ast.Call) and qname(e.generators[0].iter.func) == "zip" \
+                and len(e.generators[0].iter.args) == 2 and all(isinstance(x, ast.Name) for x in e.generators[0].iter.args):
+            # [f(d, b) for d, b in zip(dim, bounds)]  over a list of modes and a list of bounds pairs
+            a, b = [x.id for x in e.generators[0].iter.args]
+            if self.ty.get(a) != "D" or self.ty.get(b) != "LB":
+                raise Unsupported("zip of kinds %s,%s" % (self.ty.get(a), self.ty.get(b)))
+            va, vb = [x.id for x in e.generators[0].target.elts]
+            if va in self.env or vb in self.env:
+                raise Unsupported("comprehension variable shadows a name")
+            self.env[va] = "(fst %s_%s)" % (va, vb); self.ty[va] = "N"
+            self.env[vb] = "(snd %s_%s)" % (va, vb); self.ty[vb] = "Q"
+            try:
+                ty, body = self.texpr(e.elt)
+            finally:
+                for x in (va, vb):
+                    del self.env[x]; del self.ty[x]
+            if ty != "T":
+                raise Unsupported("comprehension of non-tensors")
+            return "L", "(map (fun %s_%s : nat * bnd => %s) (combine %s %s))" % (va, vb, body, self.env[a], self.env[b])
         if isinstance(e, ast.List):
             items = [self.texpr(x) for x in e.elts]
             if not items or any(t != "T" for t, _ in items):
@@ -315,6 +360,51 @@ class Tr:
                 continue                      # both operands compressed: _process is the identity
             if isinstance(s, ast.Assert):
                 continue                      # a precondition: a premise of the theorems about this variant
+            if isinstance(s, ast.If) and not s.orelse and len(s.body) == 1 and isinstance(s.body[0], ast.Raise) \
+                    and isinstance(s.test, ast.Attribute) and s.test.attr == "batch" and isinstance(s.test.value, ast.Name) \
+                    and self.ty.get(s.test.value.id) == "T":
+                continue                      # `if t.batch: raise`: a premise (ordinary tensors)
+            if isinstance(s, ast.If) and not s.orelse and isinstance(s.test, ast.Compare) and len(s.test.ops) == 1 \
+                    and isinstance(s.test.ops[0], ast.Eq) and isinstance(s.test.left, ast.Name) \
+                    and self.ty.get(s.test.left.id) == "D" and isinstance(s.test.comparators[0], ast.Constant) \
+                    and isinstance(s.test.comparators[0].value, str) \
+                    and all(isinstance(x, ast.Assign) and len(x.targets) == 1 and isinstance(x.targets[0], ast.Name)
+                            and x.targets[0].id == s.test.left.id for x in s.body):
+                continue                      # `if dim == 'all': dim = ...`: not this variant (dim is an explicit list of modes)
+            if isinstance(s, ast.If) and isinstance(s.test, ast.UnaryOp) and isinstance(s.test.op, ast.Not) \
+                    and isinstance(s.test.operand, ast.Call) and qname(s.test.operand.func) == "hasattr" \
+                    and len(s.test.operand.args) == 2 and isinstance(s.test.operand.args[1], ast.Constant) \
+                    and s.test.operand.args[1].value == "__len__":
+                tgt = s.test.operand.args[0]
+                # a list has __len__: `if not hasattr(L, '__len__'): A else: B` runs B (or nothing)
+                if isinstance(tgt, ast.Name) and self.ty.get(tgt.id) in ("D", "LB", "P"):
+                    if s.orelse:
+                        sub = ast.FunctionDef(name="_", args=None, body=s.orelse, decorator_list=[])
+                        out = self.body(sub)
+                    continue
+                # the entries of a list of pairs have __len__: `if not hasattr(B[0], '__len__'): B = ...` does not run
+                if isinstance(tgt, ast.Subscript) and isinstance(tgt.value, ast.Name) and self.ty.get(tgt.value.id) in ("LB", "P") \
+                        and isinstance(tgt.slice, ast.Constant) and tgt.slice.value == 0 and not s.orelse \
+                        and all(isinstance(x, ast.Assign) and len(x.targets) == 1 and isinstance(x.targets[0], ast.Name)
+                                and x.targets[0].id == tgt.value.id for x in s.body):
+                    continue
+            if isinstance(s, ast.If) and not s.orelse and isinstance(s.test, ast.Compare) and len(s.test.ops) == 1 \
+                    and isinstance(s.test.ops[0], ast.Is) and isinstance(s.test.left, ast.Name) \
+                    and isinstance(s.test.comparators[0], ast.Constant) and s.test.comparators[0].value is None \
+                    and s.test.left.id in self.none_args and len(s.body) == 1 and isinstance(s.body[0], ast.Assign) \
+                    and len(s.body[0].targets) == 1 and isinstance(s.body[0].targets[0], ast.Name) \
+                    and s.body[0].targets[0].id == s.test.left.id:
+                # `if B is None: B = E` with B left at None in this variant: B becomes E
+                ty, v = self.texpr(s.body[0].value)
+                self.env[s.test.left.id] = v; self.ty[s.test.left.id] = ty
+                continue
+            if isinstance(s, ast.If) and not s.orelse and isinstance(s.test, ast.Compare) and len(s.test.ops) == 1 \
+                    and isinstance(s.test.ops[0], ast.Is) and isinstance(s.test.left, ast.Name) \
+                    and isinstance(s.test.comparators[0], ast.Constant) and s.test.comparators[0].value is None \
+                    and s.test.left.id in self.env and s.test.left.id not in self.none_args \
+                    and all(isinstance(x, ast.Assign) and len(x.targets) == 1 and isinstance(x.targets[0], ast.Name)
+                            and x.targets[0].id == s.test.left.id for x in s.body):
+                continue                      # `if B is None: B = E` with B given in this variant: does not run
             if isinstance(s, ast.If) and self._is_bounds_normalisation(s):
                 continue                      # variant: bounds already is a list of one pair per mode
             if isinstance(s, ast.If) and s.orelse and isinstance(s.test, ast.Compare) and len(s.test.ops) == 1 \
@@ -350,7 +440,8 @@ class Tr:
         return out
 
 
-COQ_TY = {"T": "tensor", "R": "R", "B": "Prop", "G": "marg", "N": "nat", "S": "tseq", "P": "bnds", "Q": "bnd", "L": "list tensor"}
+COQ_TY = {"T": "tensor", "R": "R", "B": "Prop", "G": "marg", "N": "nat", "S": "tseq", "P": "bnds", "Q": "bnd", "L": "list tensor",
+          "D": "list nat", "LB": "list bnd"}
 
 # (python qualified name, file, class or None, function, variants: list of (suffix, {arg: kind}, none_args))
 PLAN = [
@@ -383,6 +474,9 @@ PLAN = [
     ("tn.divergence", "derivatives.py", None, "divergence", [("P", {"ts": "S", "bounds": "P"}, [])]),
     ("tn.curl", "derivatives.py", None, "curl", [("P", {"ts": "S", "bounds": "P"}, [])]),
     ("tn.laplacian", "derivatives.py", None, "laplacian", [("P", {"t": "T", "bounds": "P"}, [])]),
+    # gradient over an explicit list of modes: N = default bounds (bounds=None), B = one bounds pair per listed mode
+    ("tn.gradient", "derivatives.py", None, "gradient",
+     [("N", {"t": "T", "dim": "D"}, ["bounds"]), ("B", {"t": "T", "dim": "D", "bounds": "LB"}, [])]),
 ]
 
 HEADER = """(* GENERATED on every run from the current source of /repo/tntorch by translator/py2coq.py -- never edit.
@@ -409,6 +503,7 @@ Variables bnds bnd : Type.
 Variable b_at : bnds -> nat -> bnd.
 Variable t_partial : tensor -> nat -> nat -> bnd -> tensor.
 Variable t_pysum : list tensor -> tensor.
+Variable b_default : tensor -> nat -> bnd.
 """
 
 
